@@ -147,6 +147,11 @@ def scenarios(rng, tmp, tier, pre=0.5):
                       want="nonzero", events=["lostclean", "stop"]))
         S.append(dict(name=f"{vs}: 'key a key b key c': unknown message right after ServerInit",
                       actions=handshake(v) + [("send", b"\x63"), ("silent",)], args=quick, want="nonzero", events=["lostclean", "stop"]))
+        # the script ends with a pause and the server hangs up (cleanly) while it is still running: not completed
+        S.append(dict(name=f"{vs}: 'key a pause 3': clean close 1 s into the final pause", actions=handshake(v) + [("sleep", 1.0), ("close",)],
+                      args=["key", "a", "pause", "3"], want="nonzero", events=["lostclean", "stop"]))
+        S.append(dict(name=f"{vs}: 'sleep 4': clean close 0.5 s into the only command", actions=handshake(v) + [("sleep", 0.5), ("close",)],
+                      args=["sleep", "4"], want="nonzero", events=["lostclean", "stop"]))
         # slow (not silent) handshake, then an update that never comes: the timeout counts from the start
         # (the delay scales with what a vncdo process costs right now, so that the bound T + 1 + 2*startup below still
         # separates "counted from the start" from "counted from the connection" on a loaded machine)
@@ -175,7 +180,7 @@ def scenarios(rng, tmp, tier, pre=0.5):
     if tier == "quick":
         # a third of the grid per run, always with the special cases
         keep = [s for i, s in enumerate(S) if s.get("big") or s["actions"] is None or "slow handshake" in s["name"]
-                or "key a key b key c" in s["name"] or (i + rng.randrange(3)) % 3 == 0]
+                or "key a key b key c" in s["name"] or "final pause" in s["name"] or (i + rng.randrange(3)) % 3 == 0]
         return keep
     return S
 
